@@ -10,24 +10,24 @@ _NOTE = ("Trusts the chain simulator to play Tendermint faithfully (ABCI order, 
          "set (non-custodial, validator split, every named feature active from height 3) is explored; heights stay below the hard-coded fork heights (e.g. 30040).")
 
 CHECKS = {
-    "C19": c("pos", "TestC19", dict(checks=300, timeout=600), dict(checks=2500, shards=14, timeout=3000),
+    "C19": c("pos", "TestC19", dict(checks=300, timeout=600), dict(checks=4500, shards=14, timeout=3000),
              technique=_TECH, design_ref="DESIGN.md §7 C19",
              level_text="After every commit of generated histories (stake, edit-stake bump, begin-unstake, maturity payout, downtime and double-sign slashes, challenge burns, "
                         "forced unstake, reward mints) the node staking pool balance must equal the sum of StakedTokens of Staked+Unstaking records, both read raw. "
                         "Exploration: 14-34 blocks per history, worlds of 2-9 nodes; no absence claim.",
              level_note=_NOTE),
-    "C21": c("pos", "TestC21", dict(checks=300, timeout=600), dict(checks=2500, shards=14, timeout=3000),
+    "C21": c("pos", "TestC21", dict(checks=300, timeout=600), dict(checks=4500, shards=14, timeout=3000),
              technique=_TECH, design_ref="DESIGN.md §7 C21",
              level_text="After every commit the staked-by-power index, the per-chain index and the unstaking queue (raw prefix scans) must equal, as sets, what the raw node records "
                         "demand (duplicates inside one queue entry tolerated; jailed staked nodes stay in the per-chain index). Exploration: bounded histories and worlds.",
              level_note=_NOTE),
-    "C22": c("pos", "TestC22", dict(checks=300, timeout=600), dict(checks=2500, shards=14, timeout=3000),
+    "C22": c("pos", "TestC22", dict(checks=300, timeout=600), dict(checks=4500, shards=14, timeout=3000),
              technique=_TECH, design_ref="DESIGN.md §7 C22",
              level_text="The consensus set obtained by applying every block's ValidatorUpdates cumulatively must, after every block, consist of staked unjailed nodes with their current "
                         "power, have min(MaxValidators, available) members and contain no node weaker than an outsider (ties either way). Exploration: bounded histories, "
                         "MaxValidators 1..6, worlds of 2-9 nodes.",
              level_note=_NOTE + " The tie-break among equal powers at the MaxValidators boundary is deliberately not fixed by the oracle."),
-    "C24": c("pos", ["TestC24", "TestC24Apps"], dict(checks=230, timeout=600), dict(checks=2000, shards=14, timeout=3000),
+    "C24": c("pos", ["TestC24", "TestC24Apps"], dict(checks=230, timeout=600), dict(checks=3500, shards=14, timeout=3000),
              technique=_TECH, design_ref="DESIGN.md §7 C24",
              level_text="Two tests, nodes (TestC24) and applications (TestC24Apps), each run with the configured case count. Per-block trace monitor: Staked is left only at a session end after an accepted "
                         "begin-unstake by operator/output or an observable forced unstake; completion time = block time + UnstakingTime; the record disappears in the first block "
@@ -36,7 +36,7 @@ CHECKS = {
                         "Exploration: bounded histories.",
              level_note=_NOTE + " Forced unstake is recognised one-sidedly from observable evidence (jailed and below minimum stake, or jailed-blocks counter at the limit, or an "
                         "authorized unjail below the minimum) rather than predicted. Exactly-once is judged in the payout block; a second payout in a later block would surface as a C19 pool mismatch."),
-    "C25": c("pos", "TestC25", dict(checks=220, timeout=600), dict(checks=2000, shards=14, timeout=3000),
+    "C25": c("pos", "TestC25", dict(checks=220, timeout=600), dict(checks=3500, shards=14, timeout=3000),
              technique=_TECH + "; plus a metamorphic replay of the recorded history with all times shifted by 100 years",
              design_ref="DESIGN.md §7 C25",
              level_text="Snapshots before the block, after BeginBlock, after every challenge burn and after commit: stake removed == supply burned == pool decrease per slashing phase, "
